@@ -1,4 +1,4 @@
-From Coq Require Import List ZArith Bool Lia.
+From Coq Require Import String List ZArith Bool Lia.
 From Fabio Require Import Lib.Outcome Lib.Bytes Model.Transport.
 Import ListNotations.
 Local Open Scope Z_scope.
@@ -46,11 +46,26 @@ Proof.
       exists t. cbn [nth_error firstn last_config]. auto.
 Qed.
 
-Lemma run_length : forall ops set s, length (run set s ops) = length (filter (fun o => match o with NewTransport _ => true | _ => false end) ops).
+Definition is_new (o : op) : bool := match o with NewTransport _ => true | _ => false end.
+Lemma run_length : forall ops set s, length (run set s ops) = length (filter is_new ops).
 Proof. induction ops as [|[c|tl] ops IH]; intros; cbn; auto. Qed.
+(* the hypothesis of [run_spec] is met by every n below the number of NewTransport operations *)
+Lemma nth_new_defined : forall ops n, (n < length (filter is_new ops))%nat -> exists k tls, nth_new ops n = Some (k, tls).
+Proof.
+  induction ops as [|[c|tl] ops IH]; intros n H; cbn [filter is_new length nth_new] in *; [lia| |].
+  - destruct (IH n H) as (k & tls & E). rewrite E. eauto.
+  - destruct n as [|n']; [eauto|]. destruct (IH n') as (k & tls & E); [lia|]. rewrite E. eauto.
+Qed.
+Example run_spec_nonvacuous :
+  let c1 := {| l_rht := 3; l_idle := 4; l_maxconn := 5; l_dial := 6; l_keepalive := 7 |} in
+  let c2 := {| l_rht := 30; l_idle := 40; l_maxconn := 50; l_dial := -60; l_keepalive := 70 |} in
+  let ops := [NewTransport None; SetConfig c1; NewTransport None; SetConfig c2; SetConfig c1; NewTransport None; SetConfig c2; NewTransport None] in
+  nth_new ops 3 = Some (7%nat, None) /\ last_config init_state (firstn 7 ops) = c2 /\
+  map t_rht (run set_config init_state ops) = [0; 3; 3; 30] /\ map t_dial (run set_config init_state ops) = [0; 6; 6; -60].
+Proof. repeat split; reflexivity. Qed.
 
-(* the plain consequence the operator relies on *)
-(* nothing but the configured limits is set on any transport of any history *)
+(* mechanism lemma (definitional: [new_transport] writes the literal 0): its content comes from the
+   reflection count of the harness, which is compared with this 0 *)
 Lemma run_no_other_limits : forall ops s, Forall (fun t => t_other t = 0) (run set_config s ops).
 Proof.
   induction ops as [|[c|tl] ops IH]; intros s; cbn [run]; [constructor|apply IH|].
@@ -74,33 +89,84 @@ Proof.
   intros (H & _). cbn in H. discriminate.
 Qed.
 
-(* per-route transports read the same state *)
+(* ---- per-route transports read the same state ---- *)
 Lemma route_transport_uses s host dh ph skip t :
   route_transport s host dh ph skip = Some t ->
-  uses t s /\ t_tls t = Some {| tls_server_name := host; tls_skip_verify := skip |}.
+  uses t s /\ t_tls t = Some {| tls_server_name := host; tls_skip_verify := skip |} /\ t_other t = 0.
 Proof.
-  unfold route_transport. destruct (_ && _ && _); [|discriminate].
+  unfold route_transport. destruct (wants_transport _ _ _); [|discriminate].
   intros H. inversion H; subst. repeat split; reflexivity.
 Qed.
 
-(* ---- the time limit ---- *)
+(* ... and exist exactly for a host override other than "dst" on an https destination *)
+Lemma wants_transport_iff host dh ph :
+  wants_transport host dh ph = true <-> host <> [] /\ host <> bs "dst"%string /\ (dh = true \/ ph = true).
+Proof.
+  unfold wants_transport. rewrite !andb_true_iff, !negb_true_iff, !beq_neq, orb_true_iff. tauto.
+Qed.
+Lemma route_transport_some_iff s host dh ph skip :
+  (exists t, route_transport s host dh ph skip = Some t) <->
+  host <> [] /\ host <> bs "dst"%string /\ (dh = true \/ ph = true).
+Proof.
+  rewrite <- wants_transport_iff. unfold route_transport.
+  destruct (wants_transport host dh ph); split; intros H; try reflexivity; eauto.
+  - destruct H as (t & H). discriminate.
+  - discriminate.
+Qed.
+Lemma proto_is_https_iff proto : proto_is_https proto = true <-> proto = bs "https"%string.
+Proof. apply beq_eq. Qed.
+
+Example route_transport_nonvacuous :
+  let c := {| l_rht := 300; l_idle := 15; l_maxconn := 100; l_dial := 30; l_keepalive := 7 |} in
+  (exists t, route_transport c (bs "foo.com"%string) true false true = Some t /\ t_rht t = 300 /\ t_dial t = 30 /\
+             t_tls t = Some {| tls_server_name := bs "foo.com"%string; tls_skip_verify := true |}) /\
+  (exists t, route_transport c (bs "foo.com"%string) false (proto_is_https (bs "https"%string)) false = Some t /\ t_idle t = 15) /\
+  route_transport c (bs "foo.com"%string) false (proto_is_https (bs "HTTPS"%string)) false = None /\
+  route_transport c (bs "foo.com"%string) false (proto_is_https (bs "tcp"%string)) false = None /\
+  route_transport c (bs "dst"%string) true false false = None /\
+  route_transport c [] true true true = None.
+Proof. repeat split; try reflexivity; eexists; repeat split; reflexivity. Qed.
+
+(* ---- the time limits ---- *)
+
+(* spec side, independent of [serve] / [dial]: what the client of an upstream that answers its header
+   after [delay] must see under a configured response-header limit, resp. what connecting in
+   [connect] must give under a configured dial limit *)
+Definition rht_hits (limit delay : Z) : Prop := 0 < limit <= delay.
+Definition rht_spec (limit delay st : Z) (r : Z * Z) : Prop :=
+  (rht_hits limit delay -> r = (504, limit)) /\ (~ rht_hits limit delay -> r = (st, delay)).
+Definition dial_hits (limit connect : Z) : Prop := limit < 0 \/ 0 < limit <= connect.
+Definition dial_spec (limit connect st : Z) (r : Z) : Prop :=
+  (dial_hits limit connect -> r = 504) /\ (~ dial_hits limit connect -> r = st).
+
+Lemma rht_expires_iff limit delay : rht_expires limit delay = true <-> rht_hits limit delay.
+Proof. unfold rht_expires, rht_hits. rewrite andb_true_iff, Z.ltb_lt, Z.leb_le. tauto. Qed.
+Lemma dial_expires_iff limit connect : dial_expires limit connect = true <-> dial_hits limit connect.
+Proof. unfold dial_expires, dial_hits. rewrite orb_true_iff, andb_true_iff, !Z.ltb_lt, Z.leb_le. tauto. Qed.
+
+Lemma serve_meets_spec limit delay st : rht_spec limit delay st (serve limit delay st).
+Proof.
+  unfold rht_spec, serve. destruct (rht_expires limit delay) eqn:E.
+  - apply rht_expires_iff in E. split; [reflexivity | tauto].
+  - split; [|reflexivity]. intros H. apply rht_expires_iff in H. congruence.
+Qed.
+Lemma dial_meets_spec limit connect st : dial_spec limit connect st (dial limit connect st).
+Proof.
+  unfold dial_spec, dial. destruct (dial_expires limit connect) eqn:E.
+  - apply dial_expires_iff in E. split; [reflexivity | tauto].
+  - split; [|reflexivity]. intros H. apply dial_expires_iff in H. congruence.
+Qed.
+
 Lemma timeout_is_504 limit delay st : 0 < limit -> limit <= delay -> serve limit delay st = (504, limit).
-Proof.
-  intros H1 H2. unfold serve.
-  replace (0 <? limit) with true by (symmetry; apply Z.ltb_lt; lia).
-  replace (limit <=? delay) with true by (symmetry; apply Z.leb_le; lia). reflexivity.
-Qed.
-Lemma in_time_is_proxied limit delay st : delay < limit \/ limit = 0 -> 0 <= limit -> serve limit delay st = (st, delay).
-Proof.
-  intros H H0. unfold serve.
-  destruct (0 <? limit) eqn:E1; [|reflexivity]. apply Z.ltb_lt in E1.
-  replace (limit <=? delay) with false by (symmetry; apply Z.leb_gt; lia). reflexivity.
-Qed.
+Proof. intros H1 H2. apply (serve_meets_spec limit delay st). split; assumption. Qed.
+Lemma in_time_is_proxied limit delay st : limit <= 0 \/ delay < limit -> serve limit delay st = (st, delay).
+Proof. intros H. apply (serve_meets_spec limit delay st). unfold rht_hits. lia. Qed.
 (* the client is never held longer than the limit when one is set *)
 Lemma answered_within_limit limit delay st : 0 < limit -> snd (serve limit delay st) <= limit.
 Proof.
-  intros H. unfold serve. replace (0 <? limit) with true by (symmetry; apply Z.ltb_lt; lia).
-  destruct (limit <=? delay) eqn:E; cbn [andb snd]; [lia|]. apply Z.leb_gt in E. lia.
+  intros H. unfold serve. destruct (rht_expires limit delay) eqn:E; cbn [snd]; [lia|].
+  destruct (Z_le_gt_dec limit delay) as [L|G]; [|lia].
+  assert (X : rht_expires limit delay = true) by (apply rht_expires_iff; split; assumption). congruence.
 Qed.
 
 (* the proxy's single attempt is [serve]; any further attempt breaks the limit *)
@@ -108,7 +174,7 @@ Lemma serve_once limit delay st :
   serve_n attempts_of_proxy limit delay st = (fst (serve limit delay st), snd (serve limit delay st), 1).
 Proof.
   unfold serve_n, serve, attempts_of_proxy.
-  destruct ((0 <? limit) && (limit <=? delay)); cbn [fst snd]; [|reflexivity].
+  destruct (rht_expires limit delay); cbn [fst snd]; [|reflexivity].
   replace (Z.max 1 1) with 1 by reflexivity. rewrite Z.mul_1_l. reflexivity.
 Qed.
 Lemma within_limit_iff_single_attempt k limit delay st :
@@ -116,32 +182,191 @@ Lemma within_limit_iff_single_attempt k limit delay st :
   (snd (fst (serve_n k limit delay st)) <= limit <-> k = 1).
 Proof.
   intros H1 H2 Hk. unfold serve_n.
-  replace (0 <? limit) with true by (symmetry; apply Z.ltb_lt; lia).
-  replace (limit <=? delay) with true by (symmetry; apply Z.leb_le; lia).
-  cbn [andb fst snd]. rewrite Z.max_r by lia. split; intro H; [nia | subst k; lia].
+  replace (rht_expires limit delay) with true by (symmetry; apply rht_expires_iff; split; assumption).
+  cbn [fst snd]. rewrite Z.max_r by lia. split; intro H; [nia | subst k; lia].
 Qed.
-Lemma retry_exceeds_limit : exists limit delay st, 0 < limit /\ limit < snd (fst (serve_n 2 limit delay st))
+Lemma second_attempt_exceeds_limit : exists limit delay st, 0 < limit /\ limit < snd (fst (serve_n 2 limit delay st))
   /\ snd (serve_n 2 limit delay st) = 2.
 Proof. exists 400, 2000, 200. vm_compute. repeat split; reflexivity. Qed.
 
 Lemma dial_timeout_is_504 limit connect st : 0 < limit -> limit <= connect -> dial limit connect st = 504.
-Proof.
-  intros H1 H2. unfold dial.
-  replace (0 <? limit) with true by (symmetry; apply Z.ltb_lt; lia).
-  replace (limit <=? connect) with true by (symmetry; apply Z.leb_le; lia). reflexivity.
-Qed.
-Lemma dial_in_time limit connect st : connect < limit \/ limit = 0 -> 0 <= limit -> dial limit connect st = st.
-Proof.
-  intros H H0. unfold dial. destruct (0 <? limit) eqn:E1; [|reflexivity]. apply Z.ltb_lt in E1.
-  replace (limit <=? connect) with false by (symmetry; apply Z.leb_gt; lia). reflexivity.
-Qed.
+Proof. intros H1 H2. apply (dial_meets_spec limit connect st). right. split; assumption. Qed.
+Lemma dial_negative_is_504 limit connect st : limit < 0 -> dial limit connect st = 504.
+Proof. intros H. apply (dial_meets_spec limit connect st). left. assumption. Qed.
+Lemma dial_in_time limit connect st : limit = 0 \/ (0 < limit /\ connect < limit) -> dial limit connect st = st.
+Proof. intros H. apply (dial_meets_spec limit connect st). unfold dial_hits. lia. Qed.
 
 Lemma error_status_timeout e : error_status e = 504 <-> e = ENetTimeout.
 Proof. destruct e; cbn; split; intros H; try discriminate; reflexivity. Qed.
 
-Example history_example :
-  let c1 := {| l_rht := 3; l_idle := 4; l_maxconn := 5; l_dial := 6; l_keepalive := 7 |} in
-  let c2 := {| l_rht := 30; l_idle := 40; l_maxconn := 50; l_dial := 60; l_keepalive := 70 |} in
-  map t_rht (run set_config init_state [NewTransport None; SetConfig c1; NewTransport None; SetConfig c2; SetConfig c1; NewTransport None; SetConfig c2; NewTransport None])
-  = [0; 3; 3; 30].
-Proof. reflexivity. Qed.
+(* ---- which transport serves a target; main()'s order of operations ---- *)
+
+Inductive kind := KPlain | KSkipVerify | KOverride.
+Definition kind_of (tg : target) : kind :=
+  if wants_transport (tg_host tg) (tg_dst_https tg) (proto_is_https (tg_proto tg)) then KOverride
+  else if tg_skip tg then KSkipVerify else KPlain.
+(* the TLS settings the transport of a target of each kind must carry *)
+Definition kind_tls (tg : target) : option tlscfg :=
+  match kind_of tg with
+  | KPlain => None
+  | KSkipVerify => Some insecure_tls
+  | KOverride => Some (target_tls tg)
+  end.
+
+Lemma nth_error_map' {A B} (f : A -> B) : forall l i, nth_error (map f l) i = option_map f (nth_error l i).
+Proof. induction l as [|a l IH]; intros [|i]; cbn [map nth_error option_map]; auto. Qed.
+
+Lemma chosen_build s tgs dflt ins i :
+  chosen {| px_targets := build_table s tgs; px_default := dflt; px_insecure := ins |} i =
+  option_map (fun tg => select_transport (target_transport s tg) (tg_skip tg) dflt ins) (nth_error tgs i).
+Proof.
+  unfold chosen, build_table. cbn [px_targets px_default px_insecure]. rewrite nth_error_map'.
+  destruct (nth_error tgs i); reflexivity.
+Qed.
+
+(* the choice among transports built from state [st] (table) and [sd] (default, skip-verify) *)
+Lemma select_uses st sd tg :
+  let t := select_transport (target_transport st tg) (tg_skip tg) (new_transport sd None) (new_transport sd (Some insecure_tls)) in
+  uses t (match kind_of tg with KOverride => st | _ => sd end) /\ t_tls t = kind_tls tg /\ t_other t = 0.
+Proof.
+  unfold kind_tls, kind_of, target_transport, route_transport, select_transport.
+  destruct (wants_transport _ _ _); [repeat split; reflexivity|].
+  destruct (tg_skip tg); repeat split; reflexivity.
+Qed.
+
+Lemma uses_time t c delay connect st : uses t c ->
+  rht_spec (l_rht c) delay st (serve (t_rht t) delay st) /\ dial_spec (l_dial c) connect st (dial (t_dial t) connect st).
+Proof.
+  intros (H1 & _ & _ & H4 & _). rewrite <- H1, <- H4. split; [apply serve_meets_spec | apply dial_meets_spec].
+Qed.
+
+(* the headline statement: after main()'s start-up from ANY package state, for every configuration,
+   every table and every target of it, the transport the proxy hands the target's requests to
+   carries the five configured limits (and the TLS settings of the target's kind, and no other
+   limit), an upstream that does not answer its header within the configured response-header
+   timeout is answered 504 at that time, any other is served with its own status at its own
+   time; and the same for connecting under the configured dial timeout *)
+Lemma end_to_end s0 cfg tgs i tg delay connect st :
+  nth_error tgs i = Some tg ->
+  exists t, chosen (main_start set_config s0 cfg tgs) i = Some t /\
+    uses t cfg /\ t_tls t = kind_tls tg /\ t_other t = 0 /\
+    rht_spec (l_rht cfg) delay st (serve (t_rht t) delay st) /\
+    dial_spec (l_dial cfg) connect st (dial (t_dial t) connect st).
+Proof.
+  intros Hn. unfold main_start. rewrite chosen_build, Hn. cbn [option_map]. eexists. split; [reflexivity|].
+  destruct (select_uses (set_config s0 cfg) (set_config s0 cfg) tg) as (Hu & Ht & Ho).
+  assert (Hu' : uses (select_transport (target_transport (set_config s0 cfg) tg) (tg_skip tg)
+                       (new_transport (set_config s0 cfg) None) (new_transport (set_config s0 cfg) (Some insecure_tls))) cfg)
+    by (destruct (kind_of tg); exact Hu).
+  destruct (uses_time _ cfg delay connect st Hu') as (Hr & Hd).
+  split; [exact Hu'|]. split; [exact Ht|]. split; [exact Ho|]. split; assumption.
+Qed.
+(* a later table (every registry change) is built from the same package state *)
+Lemma end_to_end_reload s0 cfg tgs tgs' i tg delay connect st :
+  nth_error tgs' i = Some tg ->
+  exists t, chosen (reload (set_config s0 cfg) (main_start set_config s0 cfg tgs) tgs') i = Some t /\
+    uses t cfg /\ t_tls t = kind_tls tg /\ t_other t = 0 /\
+    rht_spec (l_rht cfg) delay st (serve (t_rht t) delay st) /\
+    dial_spec (l_dial cfg) connect st (dial (t_dial t) connect st).
+Proof.
+  intros Hn. unfold reload, main_start. cbn [px_default px_insecure]. rewrite chosen_build, Hn. cbn [option_map].
+  eexists. split; [reflexivity|].
+  destruct (select_uses (set_config s0 cfg) (set_config s0 cfg) tg) as (Hu & Ht & Ho).
+  assert (Hu' : uses (select_transport (target_transport (set_config s0 cfg) tg) (tg_skip tg)
+                       (new_transport (set_config s0 cfg) None) (new_transport (set_config s0 cfg) (Some insecure_tls))) cfg)
+    by (destruct (kind_of tg); exact Hu).
+  destruct (uses_time _ cfg delay connect st Hu') as (Hr & Hd).
+  split; [exact Hu'|]. split; [exact Ht|]. split; [exact Ho|]. split; assumption.
+Qed.
+
+(* all three kinds of target occur, and each is served by a different transport *)
+Example end_to_end_nonvacuous :
+  let cfg := {| l_rht := 300; l_idle := 15; l_maxconn := 100; l_dial := 30; l_keepalive := 7 |} in
+  let plain := {| tg_host := []; tg_dst_https := false; tg_proto := []; tg_skip := false |} in
+  let skipv := {| tg_host := bs "dst"%string; tg_dst_https := true; tg_proto := []; tg_skip := true |} in
+  let over := {| tg_host := bs "upstream.example"%string; tg_dst_https := true; tg_proto := []; tg_skip := true |} in
+  let px := main_start set_config init_state cfg [plain; skipv; over] in
+  map kind_of [plain; skipv; over] = [KPlain; KSkipVerify; KOverride] /\
+  map (fun i => option_map t_tls (chosen px i)) [0%nat; 1%nat; 2%nat] =
+    [Some None; Some (Some insecure_tls); Some (Some (target_tls over))] /\
+  map (fun i => option_map (fun t => serve (t_rht t) 2000 200) (chosen px i)) [0%nat; 1%nat; 2%nat] =
+    [Some (504, 300); Some (504, 300); Some (504, 300)] /\
+  map (fun i => option_map (fun t => serve (t_rht t) 100 200) (chosen px i)) [0%nat; 1%nat; 2%nat] =
+    [Some (200, 100); Some (200, 100); Some (200, 100)] /\
+  chosen px 3 = None.
+Proof. repeat split; reflexivity. Qed.
+
+(* SetConfig at the top of startServers (after the first table): a host-override target of the
+   first table is served from the package state main() started with; the client of a silent
+   upstream behind it is held although a limit is configured *)
+Lemma late_setconfig_refuted :
+  exists cfg tgs i t delay st,
+    chosen (main_start_late set_config init_state cfg tgs) i = Some t /\ ~ uses t cfg /\
+    rht_hits (l_rht cfg) delay /\ serve (t_rht t) delay st = (st, delay).
+Proof.
+  exists {| l_rht := 300; l_idle := 0; l_maxconn := 0; l_dial := 0; l_keepalive := 0 |},
+         [{| tg_host := bs "upstream.example"%string; tg_dst_https := true; tg_proto := []; tg_skip := true |}],
+         0%nat. eexists. exists 2000, 200.
+  split; [reflexivity|]. split; [|split; [unfold rht_hits; cbn; lia | reflexivity]].
+  intros (H & _). cbn in H. discriminate.
+Qed.
+(* ... while exactly the other two kinds stay right under that order *)
+Lemma late_setconfig_on_domain s0 cfg tgs i tg delay connect st :
+  nth_error tgs i = Some tg -> kind_of tg <> KOverride ->
+  exists t, chosen (main_start_late set_config s0 cfg tgs) i = Some t /\
+    uses t cfg /\ t_tls t = kind_tls tg /\
+    rht_spec (l_rht cfg) delay st (serve (t_rht t) delay st) /\
+    dial_spec (l_dial cfg) connect st (dial (t_dial t) connect st).
+Proof.
+  intros Hn Hk. unfold main_start_late. rewrite chosen_build, Hn. cbn [option_map]. eexists. split; [reflexivity|].
+  destruct (select_uses s0 (set_config s0 cfg) tg) as (Hu & Ht & Ho).
+  assert (Hu' : uses (select_transport (target_transport s0 tg) (tg_skip tg)
+                       (new_transport (set_config s0 cfg) None) (new_transport (set_config s0 cfg) (Some insecure_tls))) cfg)
+    by (destruct (kind_of tg); [exact Hu | exact Hu | congruence]).
+  destruct (uses_time _ cfg delay connect st Hu') as (Hr & Hd).
+  split; [exact Hu'|]. split; [exact Ht|]. split; assumption.
+Qed.
+
+(* main()'s start-up is a history of the package operations of [run], in main()'s order: the
+   transports the proxy holds are exactly the outputs of that history (so the history theorem and
+   the harness's history class speak about the same operations) *)
+Definition held (p : target * option transport) : list transport := match snd p with Some t => [t] | None => [] end.
+Lemma run_table_ops set : forall tgs s r,
+  run set s (table_ops tgs ++ r) = flat_map held (build_table s tgs) ++ run set s r.
+Proof.
+  induction tgs as [|tg tgs IH]; intros s r; [reflexivity|].
+  change (table_ops (tg :: tgs)) with (target_ops tg ++ table_ops tgs).
+  change (build_table s (tg :: tgs)) with ((tg, target_transport s tg) :: build_table s tgs).
+  cbn [flat_map]. rewrite <- !app_assoc, <- IH.
+  unfold target_ops, held, target_transport, route_transport, target_tls. cbn [snd].
+  destruct (wants_transport _ _ _); reflexivity.
+Qed.
+Lemma main_start_is_run set s0 cfg tgs :
+  proxy_transports (main_start set s0 cfg tgs) = run set s0 (main_ops cfg tgs).
+Proof.
+  unfold proxy_transports, main_start, main_ops. cbn [px_targets px_default px_insecure run].
+  rewrite run_table_ops. reflexivity.
+Qed.
+Lemma main_start_late_is_run set s0 cfg tgs :
+  proxy_transports (main_start_late set s0 cfg tgs) = run set s0 (main_ops_late cfg tgs).
+Proof.
+  unfold proxy_transports, main_start_late, main_ops_late. cbn [px_targets px_default px_insecure].
+  rewrite run_table_ops. reflexivity.
+Qed.
+(* every transport that exists after main()'s start-up carries the configured limits *)
+Lemma last_config_table_ops : forall tgs c r, last_config c (table_ops tgs ++ r) = last_config c r.
+Proof.
+  induction tgs as [|tg tgs IH]; intros c r; [reflexivity|].
+  change (table_ops (tg :: tgs)) with (target_ops tg ++ table_ops tgs).
+  rewrite <- app_assoc. unfold target_ops.
+  destruct (wants_transport _ _ _); cbn [app last_config]; apply IH.
+Qed.
+Lemma main_ops_all_use s0 cfg tgs : Forall (fun t => uses t cfg) (run set_config s0 (main_ops cfg tgs)).
+Proof.
+  unfold main_ops. cbn [run]. rewrite run_table_ops. apply Forall_app. split.
+  - apply Forall_forall. intros t Ht. apply in_flat_map in Ht. destruct Ht as ([tg pr] & Hin & Hh).
+    unfold build_table in Hin. apply in_map_iff in Hin. destruct Hin as (tg' & E & _). inversion E; subst.
+    unfold held in Hh. cbn [snd] in Hh. destruct (target_transport _ tg) as [t'|] eqn:Et; [|contradiction].
+    destruct Hh as [<-|[]]. unfold target_transport in Et. apply route_transport_uses in Et. apply Et.
+  - cbn [servers_ops run]. repeat constructor.
+Qed.
